@@ -344,3 +344,50 @@ def specialise(stmts, env):
         if isinstance(s, (ast.Return, ast.Raise)):
             break
     return out
+
+
+def eval_expr(e, env):
+    """Value of a small pure expression (names of env, constants, tuples / lists, + on sequences, slices and indices,
+    conditional expressions, comparisons, tuple(...) / list(...) / len(...)); raises ValueError for anything else."""
+    if isinstance(e, ast.Constant):
+        return e.value
+    if isinstance(e, ast.Name):
+        if e.id in env:
+            return env[e.id]
+        raise ValueError(e.id)
+    if isinstance(e, (ast.Tuple, ast.List)):
+        return tuple(eval_expr(x, env) for x in e.elts)
+    if isinstance(e, ast.IfExp):
+        return eval_expr(e.body, env) if eval_expr(e.test, env) else eval_expr(e.orelse, env)
+    if isinstance(e, ast.BinOp) and isinstance(e.op, (ast.Add, ast.Sub, ast.Mult)):
+        a, b = eval_expr(e.left, env), eval_expr(e.right, env)
+        if isinstance(e.op, ast.Add):
+            return a + b
+        if isinstance(e.op, ast.Sub):
+            return a - b
+        return a * b
+    if isinstance(e, ast.UnaryOp) and isinstance(e.op, ast.USub):
+        return -eval_expr(e.operand, env)
+    if isinstance(e, ast.UnaryOp) and isinstance(e.op, ast.Not):
+        return not eval_expr(e.operand, env)
+    if isinstance(e, ast.BoolOp):
+        vals = [eval_expr(v, env) for v in e.values]
+        return all(vals) if isinstance(e.op, ast.And) else any(vals)
+    if isinstance(e, ast.Compare):
+        v = eval_test(e, {src(x): eval_expr(x, env) for x in [e.left] + list(e.comparators) if not isinstance(x, ast.Constant)})
+        if v is None:
+            raise ValueError(src(e))
+        return v
+    if isinstance(e, ast.Subscript):
+        base = eval_expr(e.value, env)
+        sl = e.slice
+        if isinstance(sl, ast.Slice):
+            lo = eval_expr(sl.lower, env) if sl.lower is not None else None
+            up = eval_expr(sl.upper, env) if sl.upper is not None else None
+            st = eval_expr(sl.step, env) if sl.step is not None else None
+            return base[lo:up:st]
+        return base[eval_expr(sl, env)]
+    if isinstance(e, ast.Call) and isinstance(e.func, ast.Name) and e.func.id in ('tuple', 'list', 'len') and len(e.args) == 1 and not e.keywords:
+        v = eval_expr(e.args[0], env)
+        return len(v) if e.func.id == 'len' else tuple(v)
+    raise ValueError(src(e))
